@@ -28,6 +28,17 @@ From Coq Require Import NArith List Bool.
 Import ListNotations.
 Open Scope N_scope.
 
+(* ------------------------------------------------------------------ revisions
+   The model follows the source tree it is compared with; the checks read the tree and select the flags
+   (checks/raft_common.py: detect_rev).
+   * fix_vote_term  — `vote_request` adopts the request's term when it grants the vote (`self.term = request.term`);
+   * fix_vote_match — `response()` counts a Vote/Ok answer only if it answers a request of the candidate's current
+     term (`(Candidate, Vote, OK) if request.term == self.term`).
+   `rr_pinned` = raft.rs before the two repairs (the `_refuted` witnesses of C27 are about it), `rr_fixed` = after. *)
+Record raftrev := mkRev { fix_vote_term : bool; fix_vote_match : bool }.
+Definition rr_fixed : raftrev := mkRev true true.
+Definition rr_pinned : raftrev := mkRev false false.
+
 (* ------------------------------------------------------------------ data *)
 
 Inductive cstate := Candidate | Election | Follower (l : N) | Leader | Voted (t : N).
@@ -311,7 +322,7 @@ Definition pre_vote_request (nd : node) (r : request) (elapsed : N) : node * res
   | _ => other
   end.
 
-Definition vote_request (nd : node) (r : request) : node * response :=
+Definition vote_request (rv : raftrev) (nd : node) (r : request) : node * response :=
   match validate_vote_state nd r with
   | Some resp => (nd, resp)
   | None =>
@@ -320,15 +331,15 @@ Definition vote_request (nd : node) (r : request) : node * response :=
   | None =>
   match validate_log_for_vote nd r with
   | Some resp => (nd, resp)
-  | None => (set_state nd (Voted (q_term r)), ok r)
+  | None => (set_state (if fix_vote_term rv then set_term nd (q_term r) else nd) (Voted (q_term r)), ok r)
   end end end.
 
-Definition handle_request (nd : node) (r : request) (elapsed : N) : node * response :=
+Definition handle_request (rv : raftrev) (nd : node) (r : request) (elapsed : N) : node * response :=
   match q_kind r with
   | KAppend logs => append_request nd r logs
   | KHeartbeat => heartbeat_request nd r
   | KPreVote => pre_vote_request nd r elapsed
-  | KVote => vote_request nd r
+  | KVote => vote_request rv nd r
   end.
 
 (* ------------------------------------------------------------------ response handlers *)
@@ -359,10 +370,14 @@ Definition reconcile (nd : node) (r : request) (commit_local : N) : node * list 
 Definition is_append_or_hb (k : rkind) : bool :=
   match k with KAppend _ | KHeartbeat => true | _ => false end.
 
-Definition handle_response (nd : node) (r : request) (s : response) : node * list request :=
+(* does the candidate count this Vote/Ok answer?  (the guard of the `(Candidate, Vote, OK)` arm of `response()`) *)
+Definition vote_counts (rv : raftrev) (nd : node) (r : request) : bool :=
+  negb (fix_vote_match rv) || (q_term r =? n_term nd).
+
+Definition handle_response (rv : raftrev) (nd : node) (r : request) (s : response) : node * list request :=
   match n_state nd, q_kind r, s_result s with
   | Election, KPreVote, ROk => pre_vote_received nd r
-  | Candidate, KVote, ROk => vote_received nd r
+  | Candidate, KVote, ROk => if vote_counts rv nd r then vote_received nd r else (nd, [])
   | Leader, (KHeartbeat | KAppend _), ROk => commit nd r
   | Leader, (KHeartbeat | KAppend _), RLogMismatch _ _ _ _ cl _ => reconcile nd r cl
   | _, _, RTermMismatch l _ =>
@@ -441,11 +456,12 @@ Definition request_ghosts (c : cluster) (new : node) (r : request) (s : response
      end
    else []).
 
-Definition response_ghosts (old : node) (r : request) (s : response) : list ghost :=
-  if is_candidate (n_state old) && is_vote (q_kind r) && is_ok (s_result s) && negb (q_term r =? n_term old)
+Definition response_ghosts (rv : raftrev) (old : node) (r : request) (s : response) : list ghost :=
+  if is_candidate (n_state old) && is_vote (q_kind r) && is_ok (s_result s) && vote_counts rv old r
+     && negb (q_term r =? n_term old)
   then [GStaleVote (n_index old) (q_term r) (n_term old)] else [].
 
-Definition step (c : cluster) (ev : event) : cluster :=
+Definition step (rv : raftrev) (c : cluster) (ev : event) : cluster :=
   match ev with
   | Tick i elapsed due =>
       match get_node c i with
@@ -475,7 +491,7 @@ Definition step (c : cluster) (ev : event) : cluster :=
           let net := remove_nth k (c_net c) in
           match get_node c (q_to r) with
           | Some nd =>
-              let '(nd', s) := handle_request nd r elapsed in
+              let '(nd', s) := handle_request rv nd r elapsed in
               mkCluster (put_node c (q_to r) nd') (net ++ [MResp r s])
                         (c_hist c ++ request_ghosts c nd' r s ++ node_ghosts nd nd')
           | None => mkCluster (c_nodes c) net (c_hist c)
@@ -484,17 +500,17 @@ Definition step (c : cluster) (ev : event) : cluster :=
           let net := remove_nth k (c_net c) in
           match get_node c (s_to s) with
           | Some nd =>
-              let '(nd', reqs) := handle_response nd r s in
+              let '(nd', reqs) := handle_response rv nd r s in
               mkCluster (put_node c (s_to s) nd') (net ++ map MReq reqs)
-                        (c_hist c ++ response_ghosts nd r s ++ node_ghosts nd nd')
+                        (c_hist c ++ response_ghosts rv nd r s ++ node_ghosts nd nd')
           | None => mkCluster (c_nodes c) net (c_hist c)
           end
       | None => c
       end
   end.
 
-Definition run_from (c : cluster) (evs : list event) : cluster := fold_left step evs c.
-Definition run (size : N) (evs : list event) : cluster := run_from (init_default size) evs.
+Definition run_from (rv : raftrev) (c : cluster) (evs : list event) : cluster := fold_left (step rv) evs c.
+Definition run (rv : raftrev) (size : N) (evs : list event) : cluster := run_from rv (init_default size) evs.
 
 (* ------------------------------------------------------------------ observations used by the properties *)
 
@@ -580,8 +596,8 @@ Definition all_synced_b (c : cluster) (data : list N) : bool :=
 
 (* deliver everything in flight, oldest first, until the network is empty (fuel-bounded);
    `elapsed = 0`: no timer has expired at any receiver *)
-Fixpoint drain (fuel : nat) (c : cluster) : cluster :=
+Fixpoint drain (rv : raftrev) (fuel : nat) (c : cluster) : cluster :=
   match fuel with
   | O => c
-  | S f => match c_net c with [] => c | _ => drain f (step c (Deliver 0 0)) end
+  | S f => match c_net c with [] => c | _ => drain rv f (step rv c (Deliver 0 0)) end
   end.
